@@ -503,7 +503,7 @@ def hs_ops():
     for k in K + ["B"]:
         ops += [("add", k), ("remove", k), ("discard", k)]
     ops += [("update", ("a", "B")), ("update", ("A", "a", "b")), ("clear",), ("delidx", 0), ("delidx", -1), ("setidx", 0, "x"), ("setidx", 0, "B"),
-            ("setidx", -1, "a"), ("copy",), ("setops",)]
+            ("setidx", -1, "a"), ("setidx", 0, "A"), ("setidx", 0, "a"), ("setidx", -1, "b"), ("copy",), ("setops",)]
     return ops
 
 
@@ -612,7 +612,8 @@ def classify(cls, op, what, detail=""):
     if cls == "HeaderSet":
         if what == "init":
             return "C08/headerset-duplicates-via-constructor"
-        if op and op[0] == "setidx":
+        if op and op[0] == "setidx" and what == "duplicate-invariant":
+            # the recorded finding is this mechanism only: an item assigned while the same header sits at another index
             return "C08/headerset-setitem-duplicate"
         if op and op[0] in ("remove", "discard") and what == "invariant":
             return "C08/headerset-remove-case"
@@ -659,7 +660,7 @@ def run_history(W, rec, cls, init, hist):
         if r == "UNDEFINED":
             # only the invariants count; resynchronise the model with the real object when they hold
             if fails:
-                rec.violation(classify(cls, op, "invariant"), f"{cls}({init!r}) history {hist[:i + 1]!r}: {fails[0][1]}", case, monitor=f"contract:{fails[0][0]}")
+                rec.violation(classify(cls, op, "duplicate-invariant"), f"{cls}({init!r}) history {hist[:i + 1]!r}: {fails[0][1]}", case, monitor=f"contract:{fails[0][0]}")
                 return
             model.l = list(real)
             continue
